@@ -21,6 +21,13 @@ Additional input families (same oracle; the failure key gets a suffix naming the
   * filtered-empty sides: a zero-row left (right) table that still has its typed columns, built by
     filtering every row out of a one-row table (all-False mask, [0:0] slice), against every key
     sequence - in particular duplicate keys - on the other side (suffix ':filtered-empty-side').
+  * near-miss expect values (NEAR_MISS): a valid value with trailing / leading whitespace or a newline,
+    with a suffix / prefix ('one_to_ones', 'many_to_many_strict'), in another case ('ONE_TO_ONE'), '',
+    proper substrings ('one_to', 'many', '_'), other separators, and non-strings (5, True, a list /
+    tuple / bytes holding a valid value): every one is "any other value" and must be rejected with
+    SerifValueError (non-strings: with any exception) by all three joins WHATEVER the keys - every key
+    pair of <= 2 rows per side gets every value, the 3-row pairs get three values each in rotation
+    (key class '<cell>-near-miss-<family>-expect' / '<cell>-non-string-expect').
 """
 import inspect
 
@@ -34,8 +41,52 @@ INVALID_MAIN = ['bogus']
 INVALID_MORE = ['', 'MANY_TO_MANY', 'many-to-many', 'None']     # 'None' = the object None
 
 
+# label -> value.  'nm:<family>:<n>' are strings that are NOT one of the four values, 'ns:<what>' non-strings.
+NEAR_MISS = {
+    'nm:whitespace:0': 'one_to_one ', 'nm:whitespace:1': ' many_to_one', 'nm:whitespace:2': 'many_to_one\n', 'nm:whitespace:3': 'one_to_many\t',
+    'nm:whitespace:4': ' many_to_many ',
+    'nm:affix:0': 'one_to_ones', 'nm:affix:1': 'many_to_many_strict', 'nm:affix:2': 'xmany_to_one', 'nm:affix:3': 'one_to_many_',
+    'nm:case:0': 'ONE_TO_ONE', 'nm:case:1': 'Many_To_One', 'nm:case:2': 'one_to_Many',
+    'nm:empty:0': '',
+    'nm:substring:0': 'one_to', 'nm:substring:1': 'many', 'nm:substring:2': '_', 'nm:substring:3': 'to_one',
+    'nm:separator:0': 'one-to-one', 'nm:separator:1': 'many to one', 'nm:separator:2': 'one_to_one,many_to_many', 'nm:separator:3': 'one__to__one',
+    'ns:int': 5, 'ns:true': True, 'ns:list': ['one_to_one'], 'ns:tuple': ('many_to_many',), 'ns:bytes': b'many_to_many',
+}
+NEAR_LABELS = list(NEAR_MISS)
+assert not any(isinstance(v, str) and v in VALID for v in NEAR_MISS.values())
+
+
+def label_class(label):
+    if label in VALID or label == 'default':
+        return label
+    if label.startswith('nm:'):
+        return 'near-miss-' + label.split(':')[1]
+    if label.startswith('ns:'):
+        return 'non-string'
+    return 'invalid'
+
+
+def near_miss_cases(tier):
+    pool = [0, 1, None]
+    hi = 3 if tier == 'quick' else 4
+    seqs_ = [list(c) for n in range(0, hi + 1) for c in itertools.product(pool, repeat=n)]
+    idx = 0
+    for lk in seqs_:
+        for rk in seqs_:
+            idx += 1
+            if len(lk) <= 2 and len(rk) <= 2:
+                labels = NEAR_LABELS
+            else:
+                labels = [NEAR_LABELS[(3 * idx + d) % len(NEAR_LABELS)] for d in range(3)]
+            for kind in JOINS:
+                for label in labels:
+                    yield {'op': kind, 'expect': label, 'kind': 'int', 'lk': lk, 'rk': rk}
+
+
 def expect_value(label, kind):
     """(is_passed, value) for a label."""
+    if label in NEAR_MISS:
+        return True, NEAR_MISS[label]
     if label == 'default':
         return False, inspect.signature(getattr(Table, kind)).parameters['expect'].default
     if label == 'None':
@@ -68,6 +119,7 @@ def cases(tier, seed):
                     for label in labels:
                         yield {'op': kind, 'expect': label, 'kind': kd, 'lk': lk, 'rk': rk}
     yield from extra_cases(tier)
+    yield from near_miss_cases(tier)
 
 
 def _all_seqs(pool, hi):
@@ -148,7 +200,7 @@ def evaluate(case):
     rdup, r_none_only = dup_info(case['rk'])
     cell = cell_name(ldup, rdup)
     # key = decision-table cell (join kind, which side repeats, expect); never the concrete keys
-    key = f'{PID}:{kind}:{cell}-{label if label in VALID + ["default"] else "invalid"}-expect'
+    key = f'{PID}:{kind}:{cell}-{label_class(label)}-expect'
     if case.get('family'):
         key += ':' + case['family']
     descr = (f"{kind}(left keys={case['lk']}, right keys={case['rk']}, kind={case['kind']}, "
@@ -179,7 +231,7 @@ def evaluate(case):
         if raised is None:
             fails.append(Fail(key, f'{descr}: returned a table although {why}; must raise SerifValueError',
                               'SerifValueError', rows_of(res) if res is not None else None, f'{PID}:{kind}:raises-iff'))
-        elif not isinstance(raised, SerifValueError):
+        elif not isinstance(raised, SerifValueError) and not label.startswith('ns:'):     # a non-string may be refused with any exception
             fails.append(Fail(key + ':wrong-exception-type', f'{descr}: raised {type(raised).__name__} instead of SerifValueError ({why})',
                               'SerifValueError', repr(raised), f'{PID}:{kind}:raises-iff'))
     else:
@@ -235,7 +287,9 @@ def bound(tier):
              {'family': 'filtered-empty-side', 'kinds': ['int (<=4 rows)', 'str (<=3)', 'ihc1 (<=3)'], 'key_values': '{None,0,1}',
               'zero_row_ctor': ['mask', 'slice']}]
     return {'key_sequences': b, 'extra_families': x, 'joins': JOINS,
-            'expect': VALID + ['<omitted>'] + INVALID_MAIN + ['(every 7th pair in quick, every 5th in thorough:)'] + INVALID_MORE}
+            'expect': VALID + ['<omitted>'] + INVALID_MAIN + ['(every 7th pair in quick, every 5th in thorough:)'] + INVALID_MORE,
+            'near_miss_expect(int keys {None,0,1}; all values on pairs of <=2 rows per side, 3 rotating values on the larger pairs up to '
+            + ('3' if tier == 'quick' else '4') + ' rows)': {k: repr(v) for k, v in NEAR_MISS.items()}}
 
 
 if __name__ == '__main__':
@@ -243,6 +297,7 @@ if __name__ == '__main__':
          rule='full decision table join kind x expect (4 valid, omitted, invalid values) x all ordered key sequences per side '
               '(hence all key multisets, in every order) of the stated size: raises SerifValueError iff invalid expect or a '
               'required uniqueness fails; otherwise view(result) == view(many_to_many result); plus the hash-colliding-key and '
-              'filtered-zero-row-side families of `bound.extra_families` over the same table. distinct = distinct '
+              'filtered-zero-row-side families of `bound.extra_families` over the same table; near-miss and non-string expect values '
+              '(whitespace, affixes, case, empty, substrings, separators; int / bool / list / tuple / bytes) must always be rejected. distinct = distinct '
               '(join, expect, kind, left-dup, right-dup, None-only dups, dup among matched / unmatched rows per side, empty sides)',
          bound=bound, nontrivial=nontrivial)
